@@ -202,6 +202,7 @@ func main() {
 	holes := flag.Bool("holes", true, "generate v1 wrappers whose inner offsets have holes")
 	pg := flag.Int("pg", 40, "number of page-buffer operation sequences (pg), followed by 2 concurrent cases (pgc)")
 	bigrd := flag.Int("bigrd", 1, "page-boundary reader suite (rd cases with 64 KiB..200 KB of key+value bytes): 0 none, 1 every size and codec once, 2 full cross product")
+	pgr := flag.Int("pgr", 30, "number of page-buffer sequences with ReadFrom and a digest after every operation (pgr)")
 	flag.StringVar(&only, "only", "", "print only the cases of this op (wp, wl, wc, rd, pg, pgc)")
 	flag.Parse()
 	r := rand.New(rand.NewSource(*seed))
@@ -212,4 +213,5 @@ func main() {
 	readerCases(r, *count-*count/2, *holes)
 	pageCases(r, *pg) // after all other cases: their ids do not change
 	bigReaderCases(r, *bigrd)
+	pageRFCases(r, *pgr)
 }
